@@ -72,7 +72,9 @@ class ArgumentArrayShapeAnalysis(Transformation):
                     if all(d == ':' for d in arg.shape):
                         if len(val.shape) == len(arg.shape):
                             # We're passing the full value array, copy shape
-                            vmap[arg] = arg.clone(type=arg.type.clone(shape=val.shape))
+                            # (a bounded section ``lo:hi`` does not have the declared extents)
+                            if all(d == ':' for d in val.dimensions):
+                                vmap[arg] = arg.clone(type=arg.type.clone(shape=val.shape))
                         else:
                             # Passing a sub-array of val, find the right index
                             new_shape = [s for s, d in zip(val.shape, val.dimensions)
